@@ -564,9 +564,12 @@ class ServermapUpdater:
 
     def _send_initial_requests(self, serverlist):
         self._status.set_status("Sending %d initial queries" % len(serverlist))
-        self._queries_outstanding = set()
+        # Every server counts as outstanding before the first query goes
+        # out: a query can fail synchronously (e.g. DeadReferenceError from a
+        # connection that was just lost), and _check_for_done() must not
+        # conclude from that that nobody is left to answer.
+        self._queries_outstanding = set(serverlist)
         for server in serverlist:
-            self._queries_outstanding.add(server)
             self._do_query(server, self._storage_index, self._read_size)
 
         if not serverlist:
